@@ -50,6 +50,7 @@ class Gen:
         self.ops = []          # (line, meta)
 
     def add(self, line, **meta):
+        meta["_line"] = line if len(line) < 400 else ""
         self.ops.append((line, meta))
 
     # -- numbers around the boundaries of a field of `bits` bits
@@ -292,6 +293,27 @@ class Gen:
             fr = [(self.u(64), r.choice([(1 << 24) | r.randrange(1, 1 << 17), r.randrange(1, 1 << 17), self.u(32)])) for _ in range(n)]
             self.add("frag %d %s" % (r.choice([0, 96]), " ".join("%d/%d" % f for f in fr)), op="frag", frags=fr)
 
+    def gen_export_super(self, scale):
+        r = self.r
+        for _ in range(scale + 2):
+            n = r.choice([1, 2, 5, 40, 1023, 1024, 1025])
+            refs = {i: ((r.randrange(0, 1 << 20) * 8194) << 16) | r.randrange(0, 8192) for i in range(1, n + 1)}
+            order = list(range(1, n)) + [r.randrange(1, n + 1) for _ in range(r.choice([0, 3]))]     # hard links repeat a number
+            r.shuffle(order)
+            toks = ["%d/%d" % (i, refs[i]) for i in order] + ["%d/%d" % (n, refs[n])]
+            self.add("export %d %s" % (r.choice([0, 96]), " ".join(toks)), op="export", n=n, refs=refs)
+        self.add("export 0 0/5 1/7", op="export", expect="add 16")
+        NT = (1 << 64) - 1
+        for bs in [4096, 8192, 131072, 1 << 20, 4095, 2048, 1 << 21, 12288, 0]:
+            for comp in ([1, 6] if bs == 131072 else [4]):
+                self.add("super %d %d %d %d %d %d %d %d %d %d %d %d %d %d" % (
+                    bs, self.u(32), comp, self.u(32), r.choice([0x1c0, 0x2d0, 0xffff, 0]), r.choice([1, 2, 65535]), self.u(64),
+                    self.u(64), self.u(64), r.choice([NT, self.u(64)]), 96, self.u(64), r.choice([NT, self.u(64)]),
+                    r.choice([NT, self.u(64)])), op="super", bs=bs, comp=comp)
+        self.add("super 131072 1 0 1 0 1 0 96 96 96 96 96 96 96", op="super", bs=131072, comp=0)       # compressor id 0: read refuses
+        self.add("super 131072 1 7 1 0 1 0 96 96 96 96 96 96 96", op="super", bs=131072, comp=7)
+        self.add("super 131072 1 1 1 0 0 0 96 96 96 96 96 96 96", op="super", bs=131072, comp=1, idc0=True)  # id count 0
+
     # -- xattrs
     def xkey(self):
         pfx = self.r.choice([b"user.", b"trusted.", b"security."])
@@ -445,6 +467,7 @@ def generate(rng, quick):
     g.gen_dirs(6 * s)
     g.gen_meta(3 * s)
     g.gen_tables(3 * s)
+    g.gen_export_super(2 * s)
     g.gen_xattr(6 * s)
     g.gen_trees(12 * s)
     return g.ops
@@ -521,6 +544,8 @@ def spec_failures(meta, ans):
     t = ans.split()
     if ans.startswith("crash"):
         return ["memory-error-or-abort: " + ans]
+    if meta.get("corpus"):
+        return []                     # regression lines carry no expectation of their own: model = code is what is asked
     try:
         if op == "inode" and meta.get("rt"):
             if t[0] != "w" or t[1] != "0":
@@ -623,6 +648,31 @@ def spec_failures(meta, ans):
                 bad.append("xattr-set-read-back-differs")
         elif op == "tree":
             bad.extend(tree_failures(meta, ans))
+        elif op == "export":
+            if "expect" in meta:
+                return [] if ans == meta["expect"] else ["inode number 0 not refused"]
+            v = ans.split(" rd ", 1)[1].split()
+            want = ",".join(str(meta["refs"][i]) for i in range(1, meta["n"] + 1))
+            if v[0] != "0" or v[1] != want:
+                bad.append("export-table-read-back-differs")
+        elif op == "super":
+            f = t
+            args = list(map(int, meta_line_args(meta)))
+            bs = meta["bs"]
+            valid_bs = bs in [1 << k for k in range(12, 21)]
+            if (f[1] == "0") != valid_bs:
+                bad.append("block-size-check")
+            elif valid_bs:
+                i = f.index("rd")
+                ok = 1 <= meta["comp"] <= 6 and not meta.get("idc0")
+                if (f[i + 1] == "0") != ok:
+                    bad.append("super-read-accepts/refuses wrongly")
+                elif ok:
+                    got = list(map(int, f[i + 2:]))
+                    a = args
+                    want = [0x73717368, a[3] % 2 ** 32, a[1], bs, 0, a[2], bs.bit_length() - 1, a[4], a[5], 4, 0] + a[6:14]
+                    if got != want:
+                        bad.append("super-read-back-differs")
     except (IndexError, ValueError, KeyError, AssertionError) as e:
         bad.append("unparsable-answer (%s)" % e)
     return bad
@@ -792,9 +842,15 @@ def tree_failures(meta, ans):
     return bad[:6]
 
 
+def meta_line_args(meta):
+    return meta["_line"].split()[1:]
+
+
 def nontrivial_key(meta, ans):
     """coarse behaviour class of an evaluation (for the measured `distinct_nontrivial`)"""
     op = meta.get("op")
+    if meta.get("corpus"):
+        return ("corpus", op, ans[:24])
     if op == "inode":
         return ("inode", ans.split()[5] if len(ans.split()) > 5 else ans[:12], meta.get("rt"), len(ans) // 64)
     if op in ("mkext", "mkbasic", "setx"):
